@@ -230,10 +230,13 @@ func reverseShuffleCheck(c *core.Ctx, vals []int) bool {
 }
 
 // arrays of length 0..9 over a 4-value alphabet, in enumeration order
-const C09Total = (1<<20 - 1) / 3 // (4^10-1)/3 = 349525
+const C09Total = (1<<20 - 1) / 3     // arrays of length 0..9: (4^10-1)/3 = 349525
+const C09TotalDeep = (1<<22 - 1) / 3 // arrays of length 0..10: 1398101 (thorough tier)
 const c09Block = 128
 
-func C09Blocks() int { return (C09Total + c09Block - 1) / c09Block }
+func c09Total(tier string) int { return core.Tiered(tier, C09Total, C09TotalDeep) }
+
+func C09Blocks(tier string) int { return (c09Total(tier) + c09Block - 1) / c09Block }
 
 func nthArray(k int) []int {
 	l, cnt := 0, 1
@@ -252,8 +255,8 @@ func nthArray(k int) []int {
 
 func RunC09Exhaustive(c *core.Ctx, idx int) {
 	lo, hi := idx*c09Block, (idx+1)*c09Block
-	if hi > C09Total {
-		hi = C09Total
+	if hi > c09Total(c.Tier) {
+		hi = c09Total(c.Tier)
 	}
 	thorough := c.Tier == "thorough"
 	n := 0
